@@ -14,15 +14,17 @@ def serCompound (tbl : Pairs) : Compound → Option Str
     | some a, some b => some (a ++ '{' :: b ++ ['}'])
     | _, _ => none
   | .atrule _ kw pre content =>
-    match serializeIdentifier kw, serList tbl [] pre with
-    | some k, some a =>
+    -- the keyword is serialized together with the prelude, as one token list (commit eac44a9), so
+    -- the separator table applies between them
+    match serList tbl [] (Tok.atkw 0 kw :: pre) with
+    | some a =>
       match content with
-      | none => some ('@' :: k ++ a ++ [';'])
+      | none => some (a ++ [';'])
       | some c =>
         match serList tbl [] c with
-        | some b => some ('@' :: k ++ a ++ '{' :: b ++ ['}'])
+        | some b => some (a ++ '{' :: b ++ ['}'])
         | none => none
-    | _, _ => none
+    | none => none
   | .decl _ name value imp =>
     match serializeIdentifier name, serList tbl [] value with
     | some n, some v => some (n ++ ':' :: v ++ (if imp then "!important".toList else []))
